@@ -1,6 +1,5 @@
-use super::Optimizer;
+use super::{rel_change, Optimizer};
 use crate::prelude::Vector;
-use approx_eq::rel_diff;
 use reverse::*;
 
 /// Implements the Adam optimizer. See [Kingma and Ba 2014](https://arxiv.org/abs/1412.6980) for
@@ -124,7 +123,7 @@ impl Optimizer for Adam {
 
             if crate::statistics::max(
                 &(0..param_len)
-                    .map(|i| rel_diff(params[i].val(), prev_params[i].val()))
+                    .map(|i| rel_change(params[i].val(), prev_params[i].val()))
                     .collect::<Vec<_>>(),
             ) < f64::EPSILON
             {
